@@ -10,7 +10,11 @@ Interpretation: a worker's batch ends when it has delivered its sentinel None; a
     queue forever (> 200 reads in a row with every worker terminated and nothing queued, or > 2000 reads) is a violation.
 (b) real processes: a driver script runs the real run_realign with --cores 2/3 and small batches; the worker whose batch
     contains record K kills itself (os._exit(9), SIGKILL, SIGSEGV, uncaught exception) before that record / before the
-    sentinel; the driver must exit non-zero within 30 s.  A control run without a kill must exit 0 with the full output."""
+    sentinel; the driver must exit non-zero within 30 s.  A control run without a kill must exit 0 with the full output.
+
+Not part of the default scope (env VERIF_C13_MIDWRITE=1 switches it on, reported with known_finding id 'worker-dies-mid-delivery'):
+a worker killed WHILE it writes one result into the queue's pipe (a partial message stays in the pipe).  On the current tree the
+parent then blocks for ever inside multiprocessing's recv (get(timeout) only bounds the wait for the FIRST byte)."""
 import os
 import signal
 import subprocess
@@ -21,19 +25,23 @@ from rtc import realignlib as L
 from rtc import defects
 
 CODES = [-9, 1, 9, -11]
+MIDWRITE_PROBE = os.environ.get("VERIF_C13_MIDWRITE", "0") == "1"
 fmt = L.fmt_script
 
 DRIVER = r'''
-import os, signal, sys, time
+import os, signal, struct, sys, time
 import gaftools.cli.realign as R
 gaf, gfa, fa, out, cores, K, point, mode = sys.argv[1:9]
 cores, K = int(cores), int(K)
 real = R.wfa_alignment
 
-def die():
+def die(qu):
     sys.stderr.write("VERIF-WORKER-DYING pid=%d\n" % os.getpid())
     sys.stderr.flush()
     time.sleep(0.05)            # let the queue's feeder thread flush what was put before
+    if mode == "midwrite":      # killed while a result is being written: header announces 5000 bytes, 100 arrive
+        os.write(qu._writer.fileno(), struct.pack("!i", 5000) + b"x" * 100)
+        os._exit(9)
     if mode == "exit9":
         os._exit(9)
     if mode == "kill9":
@@ -49,7 +57,7 @@ def wrapped(seq_batch, qu):
     class Q:
         def put(self, x, *a, **kw):
             if (x is None and point == "sentinel") or (x is not None and point == "record" and x.priority == K):
-                die()
+                die(qu)
             qu.put(x, *a, **kw)
     return real(seq_batch, Q())
 
@@ -106,7 +114,7 @@ def batches(n, bs):
     return [min(bs, n - s) for s in range(0, n, bs)]
 
 
-def real_kill(ctx, section, case, paths, cores, bs, K, point, mode, limit=30):
+def real_kill(ctx, section, case, paths, cores, bs, K, point, mode, limit=30, known_finding=None):
     d = os.path.dirname(paths[0])
     drv = os.path.join(d, "driver.py")
     if not os.path.exists(drv):
@@ -148,7 +156,7 @@ def real_kill(ctx, section, case, paths, cores, bs, K, point, mode, limit=30):
     if what:
         ctx.fail(section, "real processes, cores=%d batch=%d records=%d, the worker of record %d dies before its %s (%s): %s"
                  % (cores, bs, len(case["gaf"]), K, point, mode, what),
-                 dict(case, kind="real", cores=cores, batch_size=bs, K=K, point=point, mode=mode))
+                 dict(case, kind="real", cores=cores, batch_size=bs, K=K, point=point, mode=mode, limit=limit), known_finding=known_finding)
     return what
 
 
@@ -223,6 +231,13 @@ def run(ctx):
             real_kill(ctx, "real-control", case, paths, cores, bs, -1, "none", "none")
         case, paths = cases[key]
         real_kill(ctx, "real-kill", case, paths, cores, bs, K, point, mode)
+    if MIDWRITE_PROBE or not ctx.quick:  # thorough tier: reported as the recorded known finding (known_findings.json)
+        # outside the stated kill points (before / between / after delivering results): the worker is killed WHILE one result is
+        # being written to the queue's pipe (possible for messages > PIPE_BUF or a full pipe).  Off by default, see module docstring.
+        ctx.bound("VERIF_C13_MIDWRITE=1: 2 real runs in which the dying worker leaves a partial message in the result pipe")
+        for cores, bs, n, K in ((2, 2, 7, 1), (2, 2, 7, 6)):
+            case, paths = cases[(cores, bs, n)]
+            real_kill(ctx, "real-kill-midwrite", case, paths, cores, bs, K, "record", "midwrite", limit=15, known_finding="worker-dies-mid-delivery")
     return ("each case = one run of the real realign_gaf with one (or two) worker(s) dying at a stated point under one schedule of parent observations "
             "(fake multiprocessing; distinct = distinct (configuration, worker, kill point, exit code, script)), or one subprocess run with a real worker "
             "killing itself; oracle = the way the run ends: SystemExit/exit status != 0 required, normal return or unbounded queue reading is a violation")
@@ -239,5 +254,5 @@ def replay(ctx, rec):
         what = judge(outcome, detail, text, c)
         return what is None, what or "realign ends with %s" % (detail or outcome)
     sub = type(ctx)(ctx.pid, "quick", 0, ctx.dir("r"))
-    what = real_kill(sub, "replay", c, paths, c["cores"], c["batch_size"], c["K"], c["point"], c["mode"])
+    what = real_kill(sub, "replay", c, paths, c["cores"], c["batch_size"], c["K"], c["point"], c["mode"], limit=c.get("limit", 30))
     return what is None, what or "non-zero exit status after the worker died"
